@@ -218,7 +218,7 @@ class ConcatenateEval(LibModel):
     Spec function: CAT(0) = [], CAT(i+1) = CAT(i) ++ unwrap(row_val(i)); loop invariant acc == CAT(i)."""
     qual = 'symbolic:Concatenate._evaluate__'
     cls = 'Concatenate'
-    props = ('C17',)
+    props = ('C17', 'C19')      # C19: a falsy value is an element like any other
     modes = ('sound',)
     trusted = ("list.extend appends the elements of an iterable in iteration order (A6)",)
 
